@@ -9,7 +9,7 @@ EXTRA = {"R2C01a": ["C04"], "R2C01b": ["C05"], "R2C02b": ["C03"], "R2C03a": ["C0
          "R4C09a": ["C08"], "R4C07b": ["C19"], "R4C06a": ["C02"], "R4C06c": ["C02"], "R4C04b": ["C03"], "R4C19a": ["C08"], "R4C12a": ["C09"], "R4C03a": ["C04"], "R4C02a": ["C04"], "R4C01b": ["C04"],
          "R5C10a": ["C18"], "R5C06a": ["C18"], "R5C01a": ["C03"], "R5C01b": ["C04"], "R5C13b": ["C12"], "R5C09b": ["C12"],
          "R6C08a": ["C18"], "R6C05a": ["C02"], "R6C12a": ["C09"], "R6C07b": ["C19"], "R6C11a": ["C06"],
-         "R7C01a": ["C03"], "R7C04a": ["C02"], "R8C08a": ["C18"]}
+         "R7C01a": ["C03"], "R7C04a": ["C02"], "R8C08a": ["C18"], "R10C01a": ["C03"]}
 def run(sid, prop):
     import time
     for attempt in range(4):
